@@ -405,6 +405,34 @@ func c01Run(c *fw.Ctx, tree *enode, tier string) {
 			c.Outcome("error")
 		}
 	}
+	// the calculator's own automatic variables (created for every name of the expression, all Null)
+	// and its default function table: Evaluate() equals the tree evaluated with every variable Null
+	{
+		nullVars := variables.NewVariableCollection()
+		for _, n := range names {
+			nullVars.Add(variables.NewVariable(unquoteIdent(n), variants.EmptyVariant()))
+		}
+		var got, want *variants.Variant
+		var gerr error
+		wantState := ""
+		pv := fw.Try(func() { got, gerr = calc0.Evaluate() })
+		pv2 := fw.Try(func() {
+			want, wantState = evalTree(tree, &evalEnv{ops: calc0.VariantOperations(), vars: nullVars, funcs: calc0.DefaultFunctions()})
+		})
+		c.Eval(1)
+		if pv2 == nil && wantState != "open" && pv == nil {
+			switch {
+			case strings.HasPrefix(wantState, "error"):
+				if gerr == nil {
+					c.Violation("value-differs-from-tree:automatic-variables", "%q with its automatic (Null) variables = %s, direct evaluation of the tree fails: %s", texts[0], variantStr(got), wantState)
+				}
+			case gerr != nil:
+				c.Violation("value-differs-from-tree:automatic-variables", "%q with its automatic (Null) variables fails with %v, direct evaluation of the tree gives %s", texts[0], gerr, variantStr(want))
+			case variantStr(got) != variantStr(want):
+				c.Violation("value-differs-from-tree:automatic-variables", "%q with its automatic (Null) variables = %s, direct evaluation of the tree with every variable Null gives %s", texts[0], variantStr(got), variantStr(want))
+			}
+		}
+	}
 	if len(ls) >= 2 {
 		c.Nontrivial()
 	}
@@ -414,7 +442,7 @@ func init() {
 	fw.Register(&fw.Check{
 		ID:    "C01",
 		Level: "model_checking",
-		Rule: "every syntax tree of the reference grammar with <=2 operators over all 22 binary and 2 postfix operators in both nestings, leaves decorated with unary minus / index / call / -a[1] / -(a[1]), NOT at the root and at inner nodes, calls with 0..3 and nested arguments (thorough: all 3-operator binary trees in 5 shapes, all single and joint decorations), every ordered triple of the 9 comparison/shift symbols that share a first character as a left chain and as three comparisons joined by AND; each tree printed in 4 styles (minimal parentheses, full parentheses, compact with comments and lower-case keywords, mixed-case keywords) and evaluated under every assignment of its variables from a 5 (thorough 7) value pool; " +
+		Rule: "every syntax tree of the reference grammar with <=2 operators over all 22 binary and 2 postfix operators in both nestings, leaves decorated with unary minus / index / call / -a[1] / -(a[1]), NOT at the root and at inner nodes, calls with 0..3 and nested arguments (thorough: all 3-operator binary trees in 5 shapes, all single and joint decorations), every ordered triple of the 9 comparison/shift symbols that share a first character as a left chain and as three comparisons joined by AND; each tree printed in 4 styles (minimal parentheses, full parentheses, compact with comments and lower-case keywords, mixed-case keywords) and evaluated under every assignment of its variables from a 5 (thorough 7) value pool and with the calculator's own automatic (Null) variables; " +
 			"oracle: ResultTokens = post-order of the tree for all printings, value = direct recursive evaluation of the tree applying the same IVariantOperations object in written order, function call log identical; non-trivial = trees with >=2 variable leaves",
 		Assume: []string{"operator arithmetic itself is decided by C06; nodes whose operator outcome is unspecified (NOT IN on Null, a function returning nil) are skipped for that assignment", "the recogniser/generator pair is cross-checked on every generated tree"},
 		Spaces: func(tier string) []fw.Space {
